@@ -80,13 +80,16 @@ def lift_expr(expr):
     if sq1 is None:
         raise SymError("cannot lift %s to a quadratic algebraic atom" % expr)
     ctx = S.current()
-    key = (id(ctx), sq1.key())
-    name = _nested_memo.get(key)
-    if name is None or name not in ctx.vars:
+    # the memo lives in the context itself: a table keyed by id(ctx) hands a dead context's atom names to a new context that
+    # happens to be allocated at the same address (seen as a non-reproducing 'sat' in C03, thorough tier)
+    memo = ctx.__dict__.setdefault("_nested_memo", {})
+    key = sq1.key()
+    name = memo.get(key)
+    if name is None:
         name = "alg!%d" % sum(1 for n in ctx.vars if n.startswith("alg!"))
         atom = ctx.algebraic(name, sq1, positive=True, value=abs(val))
         ctx.name_float(abs(val), atom)
-        _nested_memo[key] = name
+        memo[key] = name
     atom = Sym({((name, 1),): Fraction(1)})
     return atom if val > 0 else -atom
 
